@@ -202,7 +202,7 @@ func (ex *Exec) callContract(st *State, fr *Frame, c ssa.Instruction, fn *ssa.Fu
 	}
 	env.old = pre
 	for _, en := range fc.Ensures {
-		ex.assumeClause(st, env, en)
+		ex.assumeClauseLenient(st, env, en)
 	}
 	return []Outcome{{st, rets}}
 }
@@ -627,4 +627,19 @@ func (ex *Exec) appendBuiltin(st *State, fr *Frame, c *ssa.Call, dst, src Value,
 	o.Seq = &q
 	st.heap[id] = &o
 	return VSlice{Obj: id, Off: Const(64, 0), Len: nl, Cap: ncap, Nil: False}
+}
+
+// assumeClauseLenient: a callee postcondition that speaks about the result through a type assertion the caller's
+// state cannot decide (the result is an abstract interface value) is not assumed at this call site - assuming less
+// is sound; the clause is still an obligation of the callee itself.
+func (ex *Exec) assumeClauseLenient(st *State, env *Env, en *Clause) {
+	defer func() {
+		if r := recover(); r != nil {
+			if ee, ok := r.(*execError); ok && ee.kind == "contract" && strings.Contains(ee.msg, "not decided by the dynamic type") {
+				return
+			}
+			panic(r)
+		}
+	}()
+	ex.assumeClause(st, env, en)
 }
